@@ -9,7 +9,7 @@
    controller step; chi routing, middlewares and go-libs helpers are exercised by the HTTP sweep (harness/go/vh/httpsweep.go),
    not modelled.  JSON lexing, duplicate and case-variant object keys are outside the model as well. *)
 From Coq Require Import List ZArith String Bool.
-From LV Require Import Base.Util Ledger.Types Ledger.Core Ledger.Invariants Base.JsonTree Ledger.Api Ledger.ApiProofs Ledger.ApiEffect.
+From LV Require Import Base.Util Ledger.Types Ledger.Core Ledger.Invariants Base.JsonTree Ledger.Api Ledger.ApiProofs Ledger.ApiEffect Ledger.HttpView.
 Import ListNotations.
 Open Scope string_scope.
 Open Scope Z_scope.
@@ -45,6 +45,29 @@ Theorem C38_rejected_before_store : forall pt sp f now s body ik dry s' e,
   handle_v2_create pt sp f now s body ik dry = (s', Rejected e) -> s' = s /\ decode_v2_tx pt sp body = ClientError e.
 Proof. exact handle_rejected_identity. Qed.
 Print Assumptions C38_rejected_before_store.
+
+(* THE STATUS LAYER (Ledger/HttpView.v: the status / errorCode each controller error is rendered with by the v1 and v2
+   handlers; tied to the real router by the TIE-H runs, which compare exactly this projection).
+   Whatever the API version, operation, state and history: the answer to a write is a 2xx or a 4xx, never a 5xx; and an answer
+   that is an error status left all seven tables unchanged. *)
+Theorem C38_write_answer_is_2xx_or_4xx : forall v i r,
+  match http_answer_of v i r with HOk st _ _ => 200 <= st < 300 | HErr st _ => 400 <= st < 500 end.
+Proof. exact http_answer_class. Qed.
+Print Assumptions C38_write_answer_is_2xx_or_4xx.
+
+Theorem C38_error_status_no_effect : forall v f now s o s' r st c,
+  step f now s o = SR s' r -> http_answer_of v (o_in o) r = HErr st c -> 400 <= st < 500 /\ tables s' = tables s.
+Proof. exact http_error_no_effect. Qed.
+Print Assumptions C38_error_status_no_effect.
+
+(* reusing an idempotency key with another input is 400 VALIDATION, reusing a reference 409 CONFLICT, a second revert 400 ALREADY_REVERT *)
+Theorem C38_named_rejections : forall v,
+  http_error v EIdempotencyInput = (400, "VALIDATION") /\ http_error v EReferenceConflict = (409, "CONFLICT") /\
+  http_error v EAlreadyReverted = (400, "ALREADY_REVERT").
+Proof.
+  intros v. split; [apply idempotency_input_is_400_validation|]. split; [apply reference_conflict_is_409 | apply already_reverted_is_400].
+Qed.
+Print Assumptions C38_named_rejections.
 
 (* non-vacuity: a well-formed body is accepted and committed; the same body with an invalid asset, with the amount as a string,
    and with a number where the timestamp should be are client errors with the state untouched *)
